@@ -13,5 +13,6 @@ ListQuote == {"BL"}
 EmptyQuoteLeaves == {"H1", "H2", "P", "EQ"}
 QuoteLeaves == {"P", "Code"}
 HtmlLeaves == {"P", "Html", "H1"}
+HtmlOnly == {"Html", "Code"}
 QuoteConts == {"BL", "Q"}
 =============================================================================
